@@ -585,6 +585,7 @@ func (r *collection) addService(service any, lifetime Lifetime, opts ...AddOptio
 		}
 
 		// Register each field as a separate service that points to the same constructor
+		fieldDescriptors := make([]*Descriptor, 0, len(descriptor.resultFields))
 		for _, field := range descriptor.resultFields {
 			// Create a descriptor for each field type
 			fieldDescriptor := &Descriptor{
@@ -605,18 +606,11 @@ func (r *collection) addService(service any, lifetime Lifetime, opts ...AddOptio
 				paramFields:     descriptor.paramFields,
 			}
 
-			// Register the field descriptor
-			if err := r.registerDescriptor(fieldDescriptor); err != nil {
-				return &RegistrationError{
-					ServiceType: field.Type,
-					Operation:   "register result object field",
-					Cause:       err,
-				}
-			}
+			fieldDescriptors = append(fieldDescriptors, fieldDescriptor)
 		}
 
 		// Don't register the result object type itself
-		return nil
+		return r.registerDescriptors(fieldDescriptors, "register result object field")
 	}
 
 	// Handle multiple return types (not Out structs)
@@ -631,6 +625,7 @@ func (r *collection) addService(service any, lifetime Lifetime, opts ...AddOptio
 
 		// If we have multiple non-error returns, register each as a separate service
 		if len(nonErrorReturns) > 1 {
+			typeDescriptors := make([]*Descriptor, 0, len(nonErrorReturns))
 			for i, ret := range nonErrorReturns {
 				// Create a descriptor for each return type
 				typeDescriptor := &Descriptor{
@@ -657,22 +652,17 @@ func (r *collection) addService(service any, lifetime Lifetime, opts ...AddOptio
 					typeDescriptor.Key = nil
 				}
 
-				// Register each type descriptor
-				if err := r.registerDescriptor(typeDescriptor); err != nil {
-					return &RegistrationError{
-						ServiceType: ret.Type,
-						Operation:   "register multi-return type",
-						Cause:       err,
-					}
-				}
+				typeDescriptors = append(typeDescriptors, typeDescriptor)
 			}
-			return nil
+
+			return r.registerDescriptors(typeDescriptors, "register multi-return type")
 		}
 	}
 
 	// Handle As option - register under interface types
 	if len(options.As) > 0 {
 		// When As is specified, register the service under each interface type
+		interfaceDescriptors := make([]*Descriptor, 0, len(options.As))
 		for _, iface := range options.As {
 			interfaceType := reflect.TypeOf(iface).Elem()
 
@@ -706,22 +696,61 @@ func (r *collection) addService(service any, lifetime Lifetime, opts ...AddOptio
 				paramFields:      descriptor.paramFields,
 			}
 
-			// Register the interface descriptor
-			if err := r.registerDescriptor(interfaceDescriptor); err != nil {
-				return &RegistrationError{
-					ServiceType: interfaceType,
-					Operation:   "register as interface",
-					Cause:       err,
-				}
-			}
+			interfaceDescriptors = append(interfaceDescriptors, interfaceDescriptor)
 		}
 
 		// If As is specified, we only register under interface types, not the concrete type
-		return nil
+		return r.registerDescriptors(interfaceDescriptors, "register as interface")
 	}
 
 	// Register the descriptor normally
 	return r.registerDescriptor(descriptor)
+}
+
+// registerDescriptors registers all descriptors that stem from one Add* call,
+// or none of them: collisions are detected before anything is inserted, so a
+// registration rejected at a later output leaves the collection as it was.
+func (r *collection) registerDescriptors(descriptors []*Descriptor, operation string) error {
+	pending := make(map[TypeKey]struct{}, len(descriptors))
+	for _, descriptor := range descriptors {
+		if descriptor.Key == nil && descriptor.Group != "" {
+			continue // group members accumulate
+		}
+
+		key := TypeKey{Type: descriptor.Type, Key: descriptor.Key}
+		_, registered := r.services[key]
+		_, duplicated := pending[key]
+		if registered || duplicated {
+			var cause error = &AlreadyRegisteredError{ServiceType: descriptor.Type}
+			if descriptor.Key != nil {
+				cause = &RegistrationError{
+					ServiceType: descriptor.Type,
+					Operation:   "register",
+					Cause:       cause,
+				}
+			}
+
+			return &RegistrationError{
+				ServiceType: descriptor.Type,
+				Operation:   operation,
+				Cause:       cause,
+			}
+		}
+
+		pending[key] = struct{}{}
+	}
+
+	for _, descriptor := range descriptors {
+		if err := r.registerDescriptor(descriptor); err != nil {
+			return &RegistrationError{
+				ServiceType: descriptor.Type,
+				Operation:   operation,
+				Cause:       err,
+			}
+		}
+	}
+
+	return nil
 }
 
 // registerDescriptor registers a descriptor in the appropriate collections based on its type.
